@@ -118,6 +118,18 @@ class Translator:
     def expr(self, e, env, cname):
         if isinstance(e, ast.Constant):
             return self.constant(e.value)
+        if getattr(self, 'effect_mode', None) == 'acache':
+            if isinstance(e, ast.Attribute) and isinstance(e.value, ast.Name) and e.value.id in env:
+                return '(objAttrM %s "%s")' % (env[e.value.id], e.attr)          # self.<name> / guard.<name>
+            if isinstance(e, ast.Call) and isinstance(e.func, ast.Name) and e.func.id == 'LRUCache' and not e.args and \
+                    [k.arg for k in e.keywords] == ['maxsize']:
+                return '(lruNewM %s)' % self.expr(e.keywords[0].value, env, cname)
+            if isinstance(e, ast.Call) and isinstance(e.func, ast.Attribute) and e.func.attr == 'wrap' and len(e.args) == 1 and \
+                    not e.keywords:
+                return '(wrapM %s %s)' % (self.expr(e.func.value, env, cname), self.expr(e.args[0], env, cname))
+        if getattr(self, 'effect_mode', None) == 'subject' and isinstance(e, ast.Attribute) and e.attr == '_listeners' and \
+                isinstance(e.value, ast.Name) and e.value.id == 'self':
+            return '(listenersM %s)' % env['__w']
         if isinstance(e, ast.Name):
             if e.id in env:
                 return env[e.id]
@@ -550,6 +562,9 @@ class Translator:
                     out.add('__y')               # what the generator has yielded so far
                 if isinstance(n, ast.Call) and isinstance(n.func, ast.Attribute) and n.func.attr == 'replace_one':
                     out.add('__w')
+                if isinstance(n, ast.Call) and isinstance(n.func, ast.Attribute) and n.func.attr == 'update' and not n.args and \
+                        not n.keywords and isinstance(n.func.value, ast.Name) and n.func.value.id != 'self':
+                    out.add('__w')               # listener.update()
         return out
 
     @staticmethod
@@ -698,6 +713,56 @@ class Translator:
             hoisted = self._hoist_store_call(s, rest, env, cname, end, brk)
             if hoisted is not None:
                 return hoisted
+        if getattr(self, 'effect_mode', None) == 'acache':
+            if isinstance(s, ast.Assign) and len(s.targets) == 1 and isinstance(s.targets[0], ast.Attribute) and \
+                    isinstance(s.targets[0].value, ast.Name) and s.targets[0].value.id in env:
+                # <object>.<name> = value: a plain attribute write on one of the objects the method was given
+                who = s.targets[0].value.id
+                self.fresh += 1
+                o = 'o%d' % self.fresh
+                env2 = dict(env)
+                env2[who] = '(pure %s)' % o
+                return '(objSetS %s "%s" %s fun %s =>\n      %s)' % (env[who], s.targets[0].attr,
+                                                                            self.expr(s.value, env, cname), o,
+                                                                            self.block(rest, env2, cname, end, brk))
+        if getattr(self, 'effect_mode', None) == 'acache':
+            if isinstance(s, ast.Expr) and isinstance(s.value, ast.Call) and isinstance(s.value.func, ast.Attribute) and \
+                    s.value.func.attr == 'invalidate' and not s.value.args and not s.value.keywords and '__out' in env:
+                # <back-end>.invalidate(): a call out of the method, recorded (with the object it is made on) in the list of such calls
+                self.fresh += 1
+                c = 'c%d' % self.fresh
+                env2 = dict(env)
+                env2['__out'] = '(pure %s)' % c
+                return '(callOutM "invalidate" %s %s fun %s =>\n      %s)' % (self.expr(s.value.func.value, env, cname), env['__out'],
+                                                                            c, self.block(rest, env2, cname, end, brk))
+        if getattr(self, 'effect_mode', None) == 'subject':
+            def is_listeners(n):
+                return isinstance(n, ast.Attribute) and n.attr == '_listeners' and isinstance(n.value, ast.Name) and \
+                    n.value.id == 'self'
+
+            def next_w():
+                self.fresh += 1
+                w = 'w%d' % self.fresh
+                env2 = dict(env)
+                env2['__w'] = '(pure %s)' % w
+                return w, env2
+            if isinstance(s, ast.Assign) and len(s.targets) == 1 and is_listeners(s.targets[0]):
+                w, env2 = next_w()
+                val = 'cEmptyPyList' if isinstance(s.value, ast.List) and not s.value.elts else self.expr(s.value, env, cname)
+                return '(setListenersM %s %s fun %s =>\n      %s)' % (val, env['__w'], w, self.block(rest, env2, cname, end, brk))
+            if isinstance(s, ast.Expr) and isinstance(s.value, ast.Call) and isinstance(s.value.func, ast.Attribute) and \
+                    is_listeners(s.value.func.value) and s.value.func.attr in ('append', 'remove') and len(s.value.args) == 1 and \
+                    not s.value.keywords:
+                w, env2 = next_w()
+                return '(%s %s %s fun %s =>\n      %s)' % (
+                    'listenerAppendM' if s.value.func.attr == 'append' else 'listenerRemoveM',
+                    self.expr(s.value.args[0], env, cname), env['__w'], w, self.block(rest, env2, cname, end, brk))
+            if isinstance(s, ast.Expr) and isinstance(s.value, ast.Call) and isinstance(s.value.func, ast.Attribute) and \
+                    s.value.func.attr == 'update' and not s.value.args and not s.value.keywords and \
+                    isinstance(s.value.func.value, ast.Name) and s.value.func.value.id in env and s.value.func.value.id != 'self':
+                w, env2 = next_w()          # listener.update(): a call out of the publisher, recorded in the world
+                return '(listenerUpdateM %s %s fun %s =>\n      %s)' % (env[s.value.func.value.id], env['__w'], w,
+                                                                      self.block(rest, env2, cname, end, brk))
         if getattr(self, 'effect_mode', None) == 'eachdoc':
             def plain(stmts):
                 return [b for b in stmts if not is_log_call(b)]
@@ -1966,6 +2031,88 @@ def translate_observable(repo):
     return '\n'.join(out) + '\n', [('observable', c, a) for c, a in done], [('observable', c, r) for c, r in failed]
 
 
+def translate_allowance(repo):
+    out = ['import Model.PyPrim', '/-! GENERATED by harness/pytolean.py from vakt/cache.py (AllowanceCache.__init__) - do not edit -/',
+           'set_option linter.unusedVariables false', 'namespace Vakt.GenAllowance', 'open Vakt Vakt.PyPrim', '']
+    done, failed = [], []
+    tr = Translator(ast.parse(open(os.path.join(repo, 'vakt', 'cache.py')).read()))
+    tr.effect_mode = 'acache'
+    try:
+        f = tr.method('AllowanceCache', '__init__')
+        if f.args.vararg or f.args.kwonlyargs or not f.args.kwarg:
+            raise Untranslatable('another parameter list than (self, guard, cache_backend=None, **kwargs)')
+        if [getattr(d, 'value', 0) for d in f.args.defaults] != [None]:
+            raise Untranslatable('another default than cache_backend=None')
+        params = [a.arg for a in f.args.args] + [f.args.kwarg.arg]           # the keyword collection, as a value
+        tr.attrs, tr.fresh = set(), 0
+        env = {p: '(pure p_%s)' % p for p in params}
+        guard = params[1]
+        body = tr.block(f.body, env, 'AllowanceCache', end=lambda e: '(pairM %s %s)' % (e['self'], e[guard]))
+        if tr.attrs:
+            raise Untranslatable('reads attributes %s' % sorted(tr.attrs))
+        out.append('/-- `vakt.cache.AllowanceCache.__init__` (attribute writes as effects on the two objects it is given: the result is '
+                   'the initialised cache object and the guard as it leaves) -/')
+        out.append('def init_AllowanceCache (%s : V) : M :=\n    %s\n' % (' '.join('p_%s' % p for p in params), body))
+        done.append('AllowanceCache.__init__')
+    except Untranslatable as e:
+        failed.append(('AllowanceCache.__init__', str(e)))
+    try:
+        f = tr.method('AllowanceCache', 'update')
+        if f.args.vararg or f.args.kwonlyargs or f.args.kwarg or f.args.defaults or len(f.args.args) != 1:
+            raise Untranslatable('parameters')
+        tr.attrs, tr.fresh = set(), 0
+        env = {'self': '(pure p_self)', '__out': '(pure p_out)'}
+        body = tr.block(f.body, env, 'AllowanceCache', end=lambda e: '(pairM cNone %s)' % e['__out'])
+        if tr.attrs:
+            raise Untranslatable('reads attributes %s' % sorted(tr.attrs))
+        out.append('/-- `vakt.cache.AllowanceCache.update` - what the publisher calls (the last parameter: the calls made out of the '
+                   'method so far; the result: `None` with those calls) -/')
+        out.append('def update_AllowanceCache (p_self p_out : V) : M :=\n    %s\n' % body)
+        done.append('AllowanceCache.update')
+    except Untranslatable as e:
+        failed.append(('AllowanceCache.update', str(e)))
+    out.append('def translatedAllowance : List String := [%s]' % ', '.join('"%s"' % c for c in done))
+    out.append('def untranslatedAllowance : List (String × String) := [%s]' % ', '.join(
+        '("%s", "%s")' % (c, r.replace('"', "'")) for c, r in failed))
+    out.append('')
+    out.append('end Vakt.GenAllowance')
+    return '\n'.join(out) + '\n', [('allowance', c, []) for c in done], [('allowance', c, r) for c, r in failed]
+
+
+SUBJECT_METHODS = ['__init__', 'add_listener', 'remove_listener', 'notify']
+
+
+def translate_subject(repo):
+    out = ['import Model.PyPrim', '/-! GENERATED by harness/pytolean.py from vakt/util.py (class Subject) - do not edit -/',
+           'set_option linter.unusedVariables false', 'namespace Vakt.GenSubject', 'open Vakt Vakt.PyPrim', '']
+    done, failed = [], []
+    tr = Translator(ast.parse(open(os.path.join(repo, 'vakt', 'util.py')).read()))
+    tr.effect_mode = 'subject'
+    for m in SUBJECT_METHODS:
+        try:
+            f = tr.method('Subject', m)
+            if f.args.vararg or f.args.kwarg or f.args.kwonlyargs or f.args.defaults:
+                raise Untranslatable('parameters other than plain positional ones')
+            params = [a.arg for a in f.args.args]
+            tr.attrs, tr.fresh = set(), 0
+            env = {p: '(pure p_%s)' % p for p in params}
+            env['__w'] = '(pure p_w)'
+            body = tr.block(f.body, env, 'Subject', end=lambda e: '(pairM cNone %s)' % e['__w'])
+            if tr.attrs:
+                raise Untranslatable('reads attributes %s' % sorted(tr.attrs))
+            out.append('/-- `vakt.util.Subject.%s` (the world: the attached listeners and the `update()` calls made so far) -/' % m)
+            out.append('def %s_Subject (%s p_w : V) : M :=\n    %s\n' % (m.strip('_'), ' '.join('p_%s' % p for p in params), body))
+            done.append(('Subject.' + m, []))
+        except Untranslatable as e:
+            failed.append(('Subject.' + m, str(e)))
+    out.append('def translatedSubject : List String := [%s]' % ', '.join('"%s"' % c for c, _ in done))
+    out.append('def untranslatedSubject : List (String × String) := [%s]' % ', '.join(
+        '("%s", "%s")' % (c, r.replace('"', "'")) for c, r in failed))
+    out.append('')
+    out.append('end Vakt.GenSubject')
+    return '\n'.join(out) + '\n', [('subject', c, a) for c, a in done], [('subject', c, r) for c, r in failed]
+
+
 def translate_enfold(repo):
     out = ['import Model.PyPrim', '/-! GENERATED by harness/pytolean.py from vakt/cache.py (class EnfoldCache) - do not edit -/',
            'set_option linter.unusedVariables false', 'namespace Vakt.GenEnfold', 'open Vakt Vakt.PyPrim', '']
@@ -2107,6 +2254,9 @@ def regenerate(repo, lean_dir):
                                  (translate_inquiry, 'GenInquiry', ('translatedInquiry', 'untranslatedInquiry'), 'Inquiry.lean'),
                                  (translate_observable, 'GenObservable', ('translatedObservable', 'untranslatedObservable'),
                                   'Observable.lean'),
+                                 (translate_subject, 'GenSubject', ('translatedSubject', 'untranslatedSubject'), 'Subject.lean'),
+                                 (translate_allowance, 'GenAllowance', ('translatedAllowance', 'untranslatedAllowance'),
+                                  'Allowance.lean'),
                                  (translate_policy_json, 'GenPolicyJson', ('translatedPolicyJson', 'untranslatedPolicyJson'),
                                   'PolicyJson.lean'),
                                  (translate_redis, 'GenRedis', ('translatedRedis', 'untranslatedRedis'), 'Redis.lean'),
@@ -2159,6 +2309,10 @@ if __name__ == '__main__':
         text, tr, un = translate_memory(repo)
     if '--policy-json' in sys.argv:
         text, tr, un = translate_policy_json(repo)
+    if '--allowance' in sys.argv:
+        text, tr, un = translate_allowance(repo)
+    if '--subject' in sys.argv:
+        text, tr, un = translate_subject(repo)
     if '--observable' in sys.argv:
         text, tr, un = translate_observable(repo)
     if '--enfold' in sys.argv:
